@@ -16,6 +16,7 @@ import cmath, functools, itertools, math, time
 import numpy as np
 
 from vlib.core import PropertyCheck
+from props.c01_gatedoc import doc_matrix
 
 PI8 = math.pi / 8
 ZETA = [cmath.exp(1j * PI8 * j) for j in range(8)]
@@ -220,14 +221,16 @@ def guarded(f):
 
 # ------------------------------------------------------------------------------------------------
 # the specification, written directly (independent of expand_operator and of the model)
-def compact_matrix(qc, gate, utab=None):
-    """the gate's defining matrix: for a user gate what the user supplied (the stored operator, f() or
-    f(arg_value)), evaluated by the harness itself; for a library gate its own compact matrix (C09)"""
-    if utab and gate.name in utab:
-        u = utab[gate.name]
+def compact_matrix(g, utab=None):
+    """the defining matrix of the harness gate `g` (class G): for a user gate what the user supplied (the stored
+    operator, f() or f(arg_value)), evaluated by the harness itself; for a library gate the DOCUMENTED matrix
+    (props/c01_gatedoc.py, transcribed from the docstrings) — never a matrix computed by qutip_qip, and name,
+    argument and placement are the harness's own, not read back from the circuit object"""
+    if utab and g.name in utab:
+        u = utab[g.name]
         M = val_mat(u.mat)
-        return gate.arg_value * M if u.kind == "fn1" else M
-    return gate.get_compact_qobj().full()
+        return g.arg * M if u.kind == "fn1" else M
+    return doc_matrix(g.name, g.arg_value())
 
 
 def embed_np(U, qs, N):
@@ -251,13 +254,14 @@ def apply_np(U, qs, N, psi):
     return T.reshape(psi.shape)
 
 
-def dense_product(qc, N, utab=None):
+def dense_product(N, gates, utab=None):
+    """the ordered product of the documented / user matrices embedded on the qubits the harness named"""
     D = np.eye(2 ** N, dtype=complex)
-    for g in qc.gates:
+    for g in gates:
         if g.name == "GLOBALPHASE":
-            D = np.exp(1j * g.arg_value) * D
+            D = np.exp(1j * g.arg_value()) * D
         else:
-            D = embed_np(compact_matrix(qc, g, utab), g.get_all_qubits(), N) @ D
+            D = embed_np(compact_matrix(g, utab), g.qubits(), N) @ D
     return D
 
 
@@ -292,36 +296,61 @@ def library_catalogue():
     """every library gate with an exact matrix: (name, p8)"""
     out = [(n, 0) for n in FIXED]
     for n in ROT:
-        out += [(n, 2), (n, -6)]
+        # pi/4, -3pi/4, the boundary 2pi (RX/RY/RZ = -1 there: period 4pi), a negative angle beyond -2pi
+        out += [(n, 2), (n, -6), (n, 16), (n, -20)]
     return out
 
 
 def placed_gates(N, rot_angles=True):
     out = []
     for name, p8 in library_catalogue():
-        if p8 == -6 and not rot_angles:
+        if p8 not in (0, 2) and not rot_angles:
             continue
         nc, nt = SHAPE[name]
         if nc + nt > N:
             continue
         for qs in itertools.permutations(range(N), nc + nt):
             out.append(G(name, qs[nc:], qs[:nc], p8=p8))
-    for p8 in (3, -4):
+    for p8 in (3, -4, 16, -19):
         out.append(G("GLOBALPHASE", [], [], p8=p8))
     return out
+
+
+def exact_angle(rng):
+    """p8 (angle = p8*pi/8, even): inside (-2pi, 2pi), beyond it up to +-6pi, and the boundaries 0, +-pi, +-2pi, +-4pi"""
+    r = rng.random()
+    if r < 0.5:
+        return 2 * rng.randint(-8, 8)
+    if r < 0.8:
+        return 2 * rng.randint(-24, 24)
+    return rng.choice([-32, -16, -8, 0, 8, 16, 32, 18, -18, 48])
+
+
+BOUNDARY_ANGLES = [0.0, 1e-9, -1e-9, math.pi, -math.pi, 2 * math.pi, -2 * math.pi, 2 * math.pi + 0.5, -2 * math.pi - 0.5,
+                   3 * math.pi, -3 * math.pi, 4 * math.pi, -4 * math.pi, 9.5, -7.0, 13.0, 6 * math.pi - 1e-9]
+
+
+def float_angle(rng):
+    """a float angle: uniform in (-7, 7), uniform in (-20, 20) (|angle| >= 2pi most of the time), or a boundary value"""
+    r = rng.random()
+    if r < 0.4:
+        return rng.uniform(-7, 7)
+    if r < 0.7:
+        return rng.uniform(-20, 20)
+    return rng.choice(BOUNDARY_ANGLES)
 
 
 def random_exact_gate(rng, N):
     r = rng.random()
     if r < 0.08:
-        return G("GLOBALPHASE", [], [], p8=rng.randint(-16, 16))
+        return G("GLOBALPHASE", [], [], p8=rng.randint(-40, 40))
     while True:
         name, _ = rng.choice(library_catalogue())
         nc, nt = SHAPE[name]
         if nc + nt <= N:
             break
     qs = rng.sample(range(N), nc + nt)
-    p8 = 2 * rng.randint(-8, 8) if name in ROT else 0
+    p8 = exact_angle(rng) if name in ROT else 0
     return G(name, qs[nc:], qs[:nc], p8=p8)
 
 
@@ -332,7 +361,7 @@ def random_float_gate(rng, N):
         if nc + nt <= N:
             break
     qs = rng.sample(range(N), nc + nt)
-    ang = lambda: rng.choice([rng.uniform(-7, 7), 0.0, 1e-9, -math.pi, 2 * math.pi, 9.5])
+    ang = lambda: float_angle(rng)
     if name == "R" or name == "MS":
         val = (ang(), ang())
     elif name == "QASMU":
@@ -340,6 +369,31 @@ def random_float_gate(rng, N):
     else:
         val = ang()
     return G(name, qs[nc:], qs[:nc], val=val)
+
+
+NARGS = {"R": 2, "MS": 2, "QASMU": 3}
+
+
+def angle_sweep(angles=None, all_positions=True):
+    """every parametric library gate on its minimal register (natural and reversed placement), each argument
+    position swept over the boundary / large angles -> oracle witnesses"""
+    ws = []
+    for name in ROT + FLOAT_ONLY + ["GLOBALPHASE"]:
+        nc, nt = SHAPE[name]
+        k = nc + nt
+        placements = [list(range(k))] + ([list(range(k))[::-1]] if k > 1 else [])
+        na = NARGS.get(name, 1)
+        for a in (BOUNDARY_ANGLES if angles is None else angles):
+            for pos in range(na if all_positions else 1):
+                if na == 1:
+                    val = a
+                else:
+                    base = [0.7, -0.4, 1.1][:na]
+                    base[pos] = a
+                    val = tuple(base)
+                for qs in placements:
+                    ws.append({"kind": "circuit", "N": max(k, 1), "gates": [G(name, qs[nc:], qs[:nc], val=val).js()], "ug": []})
+    return ws
 
 
 def random_user_table(rng):
@@ -474,7 +528,7 @@ class C01(PropertyCheck):
 
         def compact():
             Us = qc.propagators(expand=False)
-            inds = [g.get_all_qubits() if g.name != "GLOBALPHASE" else list(range(N)) for g in qc.gates]
+            inds = [g.qubits() if g.name != "GLOBALPHASE" else list(range(N)) for g in gates]
             U, oi = gate_sequence_product(Us, inds_list=inds, expand=True)
             return [list(oi), U.full()]
         if want("compact"):
@@ -617,7 +671,7 @@ class C01(PropertyCheck):
         res.case(inp, True, tags + ["path=compact-big", f"N={N}"])
         qc = build_circuit(N, gates)
         st, r = guarded(lambda: gate_sequence_product(qc.propagators(expand=False),
-                                                      inds_list=[g.get_all_qubits() for g in qc.gates], expand=True))
+                                                      inds_list=[g.qubits() for g in gates], expand=True))
         if st != "ok":
             res.disagree(inp, "ok", st, "compact product raised", witness)
             return
@@ -813,7 +867,7 @@ class C01(PropertyCheck):
         utab = {u.name: u for u in ugs}
         try:
             qc = build_circuit(N, gates, ugs)
-            D = dense_product(qc, N, utab)
+            D = dense_product(N, gates, utab)
         except Exception as e:
             return True, "building the circuit / its dense product raised " + repr(e)
         dim = 2 ** N
@@ -847,15 +901,15 @@ class C01(PropertyCheck):
 
         def compact():
             Us = qc.propagators(expand=False)
-            inds = [g.get_all_qubits() if g.name != "GLOBALPHASE" else list(range(N)) for g in qc.gates]
+            inds = [g.qubits() if g.name != "GLOBALPHASE" else list(range(N)) for g in gates]
             U, oi = gate_sequence_product(Us, inds_list=inds, expand=True)
             used = sorted(set(q for i in inds for q in i))
             if list(oi) != used:
                 raise AssertionError(f"compact product reports qubits {oi}, used {used}")
             # compare on the used qubits: the dense product restricted to them
             Dc = np.eye(2 ** len(used), dtype=complex)
-            for g, i in zip(qc.gates, inds):
-                M = np.exp(1j * g.arg_value) * np.eye(2 ** N) if g.name == "GLOBALPHASE" else compact_matrix(qc, g, utab)
+            for g, i in zip(gates, inds):
+                M = np.exp(1j * g.arg_value()) * np.eye(2 ** N) if g.name == "GLOBALPHASE" else compact_matrix(g, utab)
                 Dc = embed_np(M, [used.index(q) for q in i], len(used)) @ Dc
             return U.full(), Dc
 
@@ -890,7 +944,7 @@ class C01(PropertyCheck):
         from qutip_qip.operations import gate_sequence_product
         try:
             qc = build_circuit(N, gates)
-            inds = [g.get_all_qubits() for g in qc.gates]
+            inds = [g.qubits() for g in gates]
             U, oi = gate_sequence_product(qc.propagators(expand=False), inds_list=inds, expand=True)
         except Exception as e:
             return True, f"gate_sequence_product(expand=True) raised {type(e).__name__}: {str(e)[:120]}"
@@ -905,8 +959,8 @@ class C01(PropertyCheck):
         E = np.zeros((2 ** n, len(cols)), dtype=complex)
         for j, c in enumerate(cols):
             E[c, j] = 1
-        for g, i in zip(qc.gates, inds):
-            E = apply_np(compact_matrix(qc, g), [used.index(q) for q in i], n, E)
+        for g, i in zip(gates, inds):
+            E = apply_np(compact_matrix(g), [used.index(q) for q in i], n, E)
         d = float(np.abs(full[:, cols] - E).max())
         if not d <= 1e-9:
             return True, f"compact product deviates from the ordered product by {d:.3g} (columns {cols})"
@@ -930,14 +984,17 @@ class C01(PropertyCheck):
 
     def oracle_search(self, ctx, budget_s):
         t0 = time.time()
-        for N in (1, 2, 3):
-            for g in placed_gates(N, rot_angles=False):
-                w = {"kind": "circuit", "N": N, "gates": [g.js()], "ug": []}
-                f, d = self.oracle_replay(ctx, w)
-                if f:
-                    yield w, d
-                if time.time() - t0 > budget_s:
-                    return
+        # systematic: every placed library gate on 1, 2 qubits; every parametric gate at the boundary / large
+        # angles (each argument position); every placed library gate on 3 qubits (incl. 2pi and -5pi/2)
+        systematic = [{"kind": "circuit", "N": N, "gates": [g.js()], "ug": []} for N in (1, 2) for g in placed_gates(N)]
+        systematic += angle_sweep()
+        systematic += [{"kind": "circuit", "N": 3, "gates": [g.js()], "ug": []} for g in placed_gates(3)]
+        for w in systematic:
+            f, d = self.oracle_replay(ctx, w)
+            if f:
+                yield w, d
+            if time.time() - t0 > budget_s:
+                return
         while time.time() - t0 < budget_s:
             w = self._random_witness(ctx.rng)
             f, d = self.oracle_replay(ctx, w)
@@ -949,6 +1006,8 @@ class C01(PropertyCheck):
               {"kind": "compact", "N": 9, "gates": [G("X", [4], []).js()] + [G("IDLE", [q], []).js() for q in range(9) if q != 4]
                + [G("CNOT", [4], [8]).js()]}]
         ws.append({"kind": "circuit", "N": 2, "gates": [G("X", [1], []).js(), G("SNOT", [1], []).js()], "ug": []})
+        # every parametric library gate at 2pi, beyond -2pi and at 4pi against its documented matrix
+        ws += angle_sweep([2 * math.pi, -2 * math.pi - 0.5, 4 * math.pi], all_positions=False)
         ws += [self._random_witness(ctx.rng) for _ in range(40)]
         for w in ws:
             f, d = self.oracle_replay(ctx, w)
